@@ -74,8 +74,10 @@ pub fn number_to_string(n: f64) -> String {
 
     // Check if it's an integer that can be represented exactly
     if math::trunc(n) == n && abs_n < 1e21 {
-        // Format as integer (no decimal point)
-        return format!("{:.0}", n);
+        // Format as integer (no decimal point). Plain `{}` prints the shortest digits that
+        // read back to `n`, padded with zeros (2**60 -> "1152921504606847000"); a precision
+        // of 0 would print the exact binary expansion instead ("1152921504606846976").
+        return format!("{}", n);
     }
 
     // Very small numbers (absolute value < 1e-6) use exponential notation
